@@ -46,14 +46,17 @@ def subst_names(text, objs):
     return re.sub(r'\{(\w+):(\w+)\}', rep, text)
 
 
-def build(prog):
-    """Execute the steps of a program.  Returns (model, objects-by-id)."""
+def build(prog, after_step=None):
+    """Execute the steps of a program.  Returns (model, objects-by-id).  `after_step(i)` is called
+    after step i (used to interleave the construction of several models)."""
     from sfc_models.models import Model, Country, Region
     from sfc_models.external import ExternalSector
     mod = Model()
     mod.MaxTime = prog.get('maxtime', 5)
     objs = {'model': mod}
-    for st in prog['steps']:
+    for i_step, st in enumerate(prog['steps']):
+        if after_step is not None and i_step > 0:
+            after_step(i_step - 1)
         k = st['kind']
         if k == 'country':
             cls = Region if st.get('region') else Country
